@@ -687,7 +687,17 @@ namespace cgi {
 				}
 			}
 			
-			env_path_info_ = pool_.add(util::urldecode(path,path+strlen(path)));
+			{
+				// in the path '+' is an ordinary character, only form encoding uses it for a space
+				std::string escaped_path;
+				for(char const *p=path;*p;p++) {
+					if(*p=='+')
+						escaped_path += "%2B";
+					else
+						escaped_path += *p;
+				}
+				env_path_info_ = pool_.add(util::urldecode(escaped_path));
+			}
 			env_.add("PATH_INFO",env_path_info_); 
 
 			update_time();
